@@ -15,12 +15,12 @@ cleanup() { git -C /repo worktree remove --force "$WT" 2>/dev/null; }
 trap cleanup EXIT
 demo="$WT/$PKG/zz_seed_demo_test.go"
 cp "$SRC/demo_test.go" "$demo"
-( cd "$WT/$PKG" && timeout 600 go test -vet=off -count=1 -run 'Demo' . ) > /tmp/seed-$NAME-clean.log 2>&1; clean_rc=$?
+( cd "$WT/$PKG" && timeout 600 go test ${SEED_RACE:+-race} -vet=off -count=1 -run 'Demo' . ) > /tmp/seed-$NAME-clean.log 2>&1; clean_rc=$?
 rm -f "$demo"
 git -C "$WT" apply "$SRC/patch.diff" || { echo "SEED $NAME: patch does not apply"; exit 2; }
 ( cd "$WT" && timeout 900 go test -vet=off -count=1 ./... ) > /tmp/seed-$NAME-suite.log 2>&1; suite_rc=$?
 cp "$SRC/demo_test.go" "$demo"
-( cd "$WT/$PKG" && timeout 600 go test -vet=off -count=1 -run 'Demo' . ) > /tmp/seed-$NAME-mut.log 2>&1; mut_rc=$?
+( cd "$WT/$PKG" && timeout 600 go test ${SEED_RACE:+-race} -vet=off -count=1 -run 'Demo' . ) > /tmp/seed-$NAME-mut.log 2>&1; mut_rc=$?
 echo "SEED $NAME: demo on clean tree rc=$clean_rc (want 0); suite with change rc=$suite_rc (want 0); demo with change rc=$mut_rc (want !=0)"
 if [ $clean_rc -ne 0 ] || [ $suite_rc -ne 0 ] || [ $mut_rc -eq 0 ]; then
   echo "SEED $NAME: REJECTED"; tail -5 /tmp/seed-$NAME-clean.log /tmp/seed-$NAME-suite.log /tmp/seed-$NAME-mut.log; exit 3
